@@ -432,6 +432,9 @@ class AsyncBaseClientOpenTelemetry:
         except json.JSONDecodeError as exc:
             raise GraphQLClientInvalidMessageFormat(message=message) from exc
 
+        if not isinstance(message_dict, dict):
+            raise GraphQLClientInvalidMessageFormat(message=message)
+
         type_ = message_dict.get("type")
         payload = message_dict.get("payload", {})
 
@@ -666,6 +669,9 @@ class AsyncBaseClientOpenTelemetry:
                 message_dict = json.loads(message)
             except json.JSONDecodeError as exc:
                 raise GraphQLClientInvalidMessageFormat(message=message) from exc
+
+            if not isinstance(message_dict, dict):
+                raise GraphQLClientInvalidMessageFormat(message=message)
 
             type_ = message_dict.get("type")
             payload = message_dict.get("payload", {})
